@@ -66,6 +66,9 @@ pub type CheckResult = Result<(), Fail>;
 struct CheckStats {
     cases: u64,
     evaluations: u64,
+    /// seconds since the start of the run at the first / last counted evaluation of this check
+    first_s: Option<f64>,
+    last_s: f64,
 }
 
 pub struct Report {
@@ -149,8 +152,12 @@ impl Report {
             return;
         }
         self.evaluations.fetch_add(n, Ordering::Relaxed);
+        let now = self.start.elapsed().as_secs_f64();
         let mut pc = self.per_check.lock().unwrap();
-        pc.entry(check.to_string()).or_default().evaluations += n;
+        let e = pc.entry(check.to_string()).or_default();
+        e.evaluations += n;
+        e.first_s.get_or_insert(now);
+        e.last_s = now;
     }
 
     fn case_done(&self, check: &str) {
@@ -517,7 +524,7 @@ pub fn finish(ctx: &Ctx, rep: &Report, meta: &Meta) -> i32 {
         .lock()
         .unwrap()
         .iter()
-        .map(|(k, v)| (k.clone(), json!({"cases": v.cases, "evaluations": v.evaluations})))
+        .map(|(k, v)| (k.clone(), json!({"cases": v.cases, "evaluations": v.evaluations, "active_from_s": (v.first_s.unwrap_or(0.0) * 10.0).round() / 10.0, "active_until_s": (v.last_s * 10.0).round() / 10.0})))
         .collect();
     let known_hits = rep.known_hits.lock().unwrap().clone();
     let exhaustive = rep.exhaustive.lock().unwrap().clone();
